@@ -329,21 +329,25 @@ func TestCheck(t *testing.T) {
 
 	// Phase B3b: Ver values built by hand (not parsed) with very long identifier lists, and every MaxInputLength setting:
 	// the value methods do not depend on the parser's input limit.
-	r.Phase("B3b: hand-built versions with 3..2100 identifiers differing only in the last one, MaxInputLength in {1024, 0, 3, 4, 16}", func() {
+	r.Phase("B3b: hand-built versions sharing 2..2100 leading identifiers (five kinds) and differing in the next one, with and without further identifiers behind it, MaxInputLength in {1024, 0, 3, 4, 16}", func() {
 		old := sem.MaxInputLength
 		defer func() { sem.MaxInputLength = old }()
 		for _, lim := range []int{1024, 0, 3, 4, 16} {
 			sem.MaxInputLength = lim
 			r.Serial(func(w *vkit.W) {
-				for _, n := range []int{2, 3, 4, 5, 15, 16, 17, 100, 1023, 1024, 1025, 2100} {
-					stem := strings.Repeat("a.", n)
-					for _, tails := range [][2]string{{"1", "2"}, {"9", "10"}, {"a", "b"}, {"1", "a"}, {"x", "x.0"}} {
-						c := Case{A: V{Major: 1, Pre: stem + tails[0]}, B: V{Major: 1, Pre: stem + tails[1], Build: "b"}}
-						judge(c, w)
-						w.Eval(nontrivial(c))
-						c2 := Case{A: c.B, B: c.A}
-						judge(c2, w)
-						w.Eval(nontrivial(c2))
+				for _, n := range []int{2, 3, 4, 5, 7, 8, 9, 15, 16, 17, 30, 31, 32, 33, 34, 63, 64, 65, 100, 127, 128, 129, 255, 256, 257, 1023, 1024, 1025, 2100} {
+					for _, unit := range []string{"a.", "0.", "1.x.", "rc-1.", "7."} {
+						stem := strings.Repeat(unit, n)
+						// the lists differ in one identifier and (second half of the table) go on after it
+						for _, tails := range [][2]string{{"1", "2"}, {"9", "10"}, {"a", "b"}, {"1", "a"}, {"x", "x.0"},
+							{"9.x", "10.x"}, {"2.0", "10.0"}, {"1.1", "a.0"}, {"b.2", "b.10.0"}, {"9a.1", "10a.1"}, {"2.z.z", "10"}, {"Z.1", "a.0"}} {
+							c := Case{A: V{Major: 1, Pre: stem + tails[0]}, B: V{Major: 1, Pre: stem + tails[1], Build: "b"}}
+							judge(c, w)
+							w.Eval(nontrivial(c))
+							c2 := Case{A: c.B, B: c.A}
+							judge(c2, w)
+							w.Eval(nontrivial(c2))
+						}
 					}
 				}
 			})
@@ -374,6 +378,26 @@ func TestCheck(t *testing.T) {
 							}
 						}
 					}
+				}
+			}
+		})
+	})
+
+	// Phase B3d: the labels people actually use, in lower, upper and title case (ASCII order puts every upper-case letter below
+	// every lower-case one), alone and followed by a number: all ordered pairs through every entry point.
+	r.Phase("B3d: all ordered pairs of 20 customary pre-release labels x {lower, UPPER, Title} case, alone and with a numeric identifier behind", func() {
+		var labels []string
+		for _, l := range []string{"alpha", "beta", "rc", "dev", "pre", "next", "canary", "nightly", "snapshot", "final", "ga", "release", "stable", "latest", "preview", "milestone", "test", "exp", "a", "z"} {
+			labels = append(labels, l, strings.ToUpper(l), strings.ToUpper(l[:1])+l[1:])
+		}
+		n := int64(len(labels))
+		r.Parallel(n*n, n, func(w *vkit.W, lo, hi int64) {
+			for k := lo; k < hi; k++ {
+				a, b := labels[k/n], labels[k%n]
+				for _, sfx := range [][2]string{{"", ""}, {".1", ".1"}, {".2", ".10"}, {"", ".0"}} {
+					c := Case{A: V{Major: 1, Pre: a + sfx[0], Build: "b"}, B: V{Major: 1, Pre: b + sfx[1]}, Helpers: true}
+					judge(c, w)
+					w.EvalRandom(vkit.Hash64("B3d", c.A.Pre, c.B.Pre), nontrivial(c))
 				}
 			}
 		})
